@@ -6,7 +6,7 @@ corrupted signature, re-keyed signature, sigrefs naming another repository's ide
 sigrefs commit, sigrefs ref missing, unsigned/moved/diverged namespace rad/id, rad/id without sigrefs for an unknown namespace, dropped \
 rad/ ref, new namespace, honestly deleted ref) x victim kind (delegate / non-delegate) x (pull / clone) x announced refs_at \
 (none / current tip / older tip / forged commit / blocked or own key / duplicate key), plus random combinations of two tampered \
-namespaces, scopes, block lists, delegate sets and reversed ls-refs order; executed on real git repositories through a real `git upload-pack`; \
+namespaces, scopes, block lists, delegate sets, reversed ls-refs order and references listed twice; executed on real git repositories through a real `git upload-pack`; \
 non-trivial = some namespace was tampered or changed; distinct by scenario text";
 
 pub const C02_RULE: &str = "delegate sets of size 1..4, thresholds 1..n, local node delegate or not, blocked delegates, per-delegate \
@@ -121,21 +121,23 @@ pub fn c01_cases(rng: &mut Rng, quick: bool) -> Vec<String> {
             // pull, no refs_at: always
             out.push(scenario(n, &d, t, local, false, "all", &[], "-", &[ops.clone()]));
             // clone: every kind in thorough, alternating in quick
-            if !pull_only && (!quick || (i + victim) % 2 == 0) {
+            // quick: the secondary variants alternate between the two victims
+            let mine = !quick || (i + victim) % 2 == 0;
+            if !pull_only && (!quick || (mine && i % 2 == 0)) {
                 let ops: String = ops.split(';').filter(|o| !o.starts_with("L.")).collect::<Vec<_>>().join(";");
                 out.push(scenario(n, &d, t, 5, true, "all", &[], "-", &[ops]));
             }
             // pull with refs_at = current tip / older tip
-            if !quick || (i + victim) % 2 == 1 {
+            if !quick || (mine && i % 2 == 1) {
                 let (ops2, ra) = current_refsat(victim, ops);
                 out.push(scenario(n, &d, t, local, false, "all", &[], &ra, &[ops2]));
             }
-            if !quick || i % 3 == 0 {
+            if !quick || (mine && i % 3 == 0) {
                 let (ops2, ra) = older_refsat(victim, ops);
                 out.push(scenario(n, &d, t, local, false, "all", &[], &ra, &[ops2]));
             }
             // the serving side lists its references in reverse name order
-            if !quick || i % 3 == 1 || i + 1 == kinds.len() {
+            if !quick || (mine && i % 3 == 1) || i + 1 == kinds.len() {
                 out.push(scenario(n, &d, t, local, false, "all", &[], "-", &[format!("{ops};S.revorder")]));
             }
         }
@@ -145,6 +147,15 @@ pub fn c01_cases(rng: &mut Rng, quick: bool) -> Vec<String> {
                 &[format!("S.commit.{victim}.master;S.resign.{victim}"), extra],
             ));
         }
+        // the serving side lists the victim's rad/sigrefs twice: newer then older (the last listing counts),
+        // the same in reverse order, and real tip then a forged commit
+        let adv = format!("S.mark.{victim}.a;S.commit.{victim}.master;S.resign.{victim};S.advdup.{victim}.a");
+        out.push(scenario(n, &d, t, local, false, "all", &[], "-", &[adv.clone()]));
+        out.push(scenario(n, &d, t, local, false, "all", &[], "-", &[format!("{adv};S.revorder")]));
+        out.push(scenario(
+            n, &d, t, local, false, "all", &[], "-",
+            &[format!("S.commit.{victim}.master;S.resign.{victim};S.junk.{victim};S.mark.{victim}.a;S.rewind.{victim};S.advdup.{victim}.a")],
+        ));
         // blocked victim: without and with an announcement naming it
         out.push(scenario(n, &d, t, local, false, "all", &[victim], "-", &[format!("S.commit.{victim}.master;S.resign.{victim}")]));
         out.push(scenario(
@@ -168,7 +179,7 @@ pub fn c01_cases(rng: &mut Rng, quick: bool) -> Vec<String> {
     out.push(scenario(2, &[0, 1], 2, 0, false, "all", &[], "0:a", &["L.commit.0.master;L.resign.0;S.mark.0.a".into()]));
     out.push(scenario(2, &[0, 1], 2, 0, false, "all", &[], "0:a", &["S.commit.0.master;S.resign.0;S.mark.0.a".into()]));
     // random combinations: two tampered namespaces, random config
-    let extra = if quick { 12 } else { 900 };
+    let extra = if quick { 8 } else { 500 };
     for _ in 0..extra {
         let n = rng.range(2, 5) as usize;
         let nd = rng.range(1, n.min(3) as u64) as usize;
@@ -202,6 +213,12 @@ pub fn c01_cases(rng: &mut Rng, quick: bool) -> Vec<String> {
             _ => "all".to_string(),
         };
         let blocked: Vec<usize> = if rng.chance(1, 5) { vec![rng.below(n as u64) as usize] } else { vec![] };
+        if rng.chance(1, 6) && !ops.contains(&format!("del.{v1}.sigrefs")) && !ops.contains(&format!("rmns.{v1}")) {
+            ops = format!("S.mark.{v1}.z;{ops};S.advdup.{v1}.z");
+            // `B.` ops must stay first
+            let (b, rest): (Vec<&str>, Vec<&str>) = ops.split(';').partition(|o| o.starts_with("B."));
+            ops = b.into_iter().chain(rest).collect::<Vec<_>>().join(";");
+        }
         if rng.chance(1, 4) {
             ops = format!("{ops};S.revorder");
         }
@@ -365,7 +382,7 @@ pub fn c02_cases(rng: &mut Rng, quick: bool) -> Vec<String> {
         for (nd, t, ld, states) in &product {
             out.push(c02_case(*nd, *t, *ld, false, states, &[], false, &[]));
         }
-        for _ in 0..1500 {
+        for _ in 0..500 {
             let nd = 4usize;
             let states: Vec<&str> = (0..nd).map(|_| *rng.pick(&STATES)).collect();
             let t = rng.range(1, nd as u64) as usize;
@@ -374,7 +391,7 @@ pub fn c02_cases(rng: &mut Rng, quick: bool) -> Vec<String> {
             let blocked: Vec<usize> = if rng.chance(1, 4) { vec![rng.below(nd as u64) as usize] } else { vec![] };
             out.push(c02_case(nd, t, rng.bool(), clone, &states, &blocked, refsat, &[]));
         }
-        for _ in 0..400 {
+        for _ in 0..150 {
             let (nd, t, ld, states) = rng.pick(&product).clone();
             let clone = rng.chance(1, 3);
             let refsat = !clone && rng.chance(1, 2);
